@@ -197,11 +197,39 @@ func xmpCB(env *Env, res *Result) func(io.Reader) error {
 		return func(r io.Reader) error { return a.Run(r, "", -1) }
 	}
 	return func(r io.Reader) error {
+		// xmp.ParseXmp as the caller's callback is an entry-point call of its own (one per XMP segment
+		// or box): what it allocates is accounted to that call, not to the scanner that invoked the
+		// callback (C14 judges both: the scanner without its callbacks' calls, every nested call alone)
+		var n0 uint64
+		nested := MeasureAlloc && measuring
+		if nested {
+			n0 = allocNow()
+		}
 		x, err := xmp.ParseXmp(r)
+		if nested {
+			d := allocNow() - n0
+			NestedAlloc += d
+			if d > NestedMax {
+				NestedMax = d
+			}
+		}
 		res.XMP = &x
 		_ = err // the parser legitimately ends with io.EOF; the library's own callers ignore it
 		return nil
 	}
+}
+
+// NestedAlloc / NestedMax: bytes allocated inside nested entry-point calls made from callbacks
+// during the measured call (sum, and the largest single one).
+var NestedAlloc, NestedMax uint64
+
+func allocNow() uint64 {
+	if AllocScreen {
+		return screenBytes()
+	}
+	var m runtime.MemStats
+	runtime.ReadMemStats(&m)
+	return m.TotalAlloc
 }
 
 func actorFields(f *Fields, name string, a *world.Actor) {
@@ -275,12 +303,12 @@ func m0() {
 func m1() {
 	if MeasureAlloc {
 		if AllocScreen {
-			AllocDelta = screenBytes() - screen0
+			AllocDelta = screenBytes() - screen0 - NestedAlloc
 			measuring = false
 			return
 		}
 		runtime.ReadMemStats(&mem1)
-		AllocDelta = mem1.TotalAlloc - mem0.TotalAlloc
+		AllocDelta = mem1.TotalAlloc - mem0.TotalAlloc - NestedAlloc
 		measuring = false
 	}
 }
@@ -532,6 +560,7 @@ func Invoke(e *Entry, env *Env, r *world.SimReader) (res *Result) {
 	res = &Result{}
 	if MeasureAlloc { // package-level meter state is touched only in the single-task C14 world
 		AllocDelta = 0
+		NestedAlloc, NestedMax = 0, 0
 		measuring = false
 	}
 	defer func() {
